@@ -232,6 +232,9 @@ def jobs(tier, seed):
         ms = [x for x in node if x is not None] if last is None else [node[last[0]]]
         if any(isinstance(x, E.A.mnemonic) and SPEC.in_core(x.name) for x in ms):
             out.append(('sem', ej, tier))
+    # longest jobs first (multiplications, divisions, bit tests and double shifts dominate the solver time)
+    slow = ('imul', 'mul', 'idiv', 'div', 'btc', 'bts', 'btr', 'bt', 'shld', 'shrd', 'cmpxchg', 'test', 'xadd', 'rcl', 'rcr')
+    out.sort(key=lambda j: (0 if j[1][4] in slow else 1))
     return out
 
 
